@@ -171,4 +171,30 @@ def runCall (s : Sys) (t : Tid) : Nat → Sys × Out
     | (s', .none) => runCall s' t fuel
     | r => r
 
+
+/-! ## Many limiter objects, reconfiguration and concurrency together
+
+Every limiter object the gateway ever creates has its own counter. An event addresses one object: a thread
+(= a request, which keeps the object it was handed by its one lookup) executes its next atomic operation on
+it, or `Sync` resizes it in place. A type change, a deletion or a re-addition only changes which object
+*later* lookups are handed — here: which object later events address — so every history of
+reconfigurations interleaved in any way with any number of requests is a list of `(object, event)`. -/
+
+structure Heap where
+  objs : Nat → Sys
+
+def Heap.init (maxOf : Nat → Nat) : Heap := ⟨fun o => KG.Model.MaxInflight.init (maxOf o)⟩
+
+def Heap.step (h : Heap) (o : Nat) (e : Ev) : Heap :=
+  ⟨fun p => if p = o then (KG.Model.MaxInflight.step (h.objs o) e).1 else h.objs p⟩
+
+def Heap.run : Heap → List (Nat × Ev) → Heap
+  | h, [] => h
+  | h, (o, e) :: es => Heap.run (h.step o e) es
+
+/-- the events of a global schedule that address object `o` -/
+def eventsOf (o : Nat) : List (Nat × Ev) → List Ev
+  | [] => []
+  | (p, e) :: es => if p = o then e :: eventsOf o es else eventsOf o es
+
 end KG.Model.MaxInflight
